@@ -2,7 +2,7 @@
    stay the extracted inductive datatypes. Output lands in the directory coqc runs in. *)
 Require Extraction.
 Require Import ExtrOcamlBasic.
-From PM Require Import Base.Bytes Num.IntModel Num.DecModel Num.CoinsModel Store.KV Store.RootMulti Crypto.KeysModel App.Model Codec.CodecModel Codec.DecText.
+From PM Require Import Base.Bytes Num.IntModel Num.DecModel Num.CoinsModel Store.KV Store.RootMulti Crypto.KeysModel App.Model App.KeyTypes Codec.CodecModel Codec.DecText.
 Extraction Language OCaml.
 Extraction "model.ml"
   Coq.ZArith.BinInt.Z.add Coq.ZArith.BinInt.Z.mul Coq.ZArith.BinInt.Z.sub Coq.ZArith.BinInt.Z.opp
@@ -19,7 +19,7 @@ Extraction "model.ml"
   safe_add safe_sub coins_sub coins_valid amount_of is_all_gte is_all_gt is_any_gte coins_equal coins_is_zero new_coins
   verify kstep
   ms_init commit_in_order reopen load_ms ms_set ms_delete ms_tset ms_query ms_set_pruning
-  init_chain begin_block end_block deliver_tx k_award k_burn bank_mint set_bank rank_key time_key be_bytes
+  init_chain begin_block end_block deliver_tx deliver_tx_cp k_award k_burn bank_mint set_bank rank_key time_key be_bytes
   aset s_get s_has s_set s_delete s_iter s_iter_all c_write at_depth it_valid it_key it_value it_next consume
   uvarint uvarint_decode frame unframe time_text sort_json sign_bytes dec_to_text text_to_dec
   kv_gas_config c_empty prefix_end_bytes inclusive_end_bytes merge_run.
